@@ -49,6 +49,45 @@ class Oracle:
         return True
 
 
+def unaliased_locals(fdef):
+    """Names bound exactly once, to a fresh list (`x = []` / a list display), whose every other occurrence is the receiver of
+    a list method, the argument of len(), a subscript load, or inside a return statement: such a list never escapes
+    before the function returns, so no callee can hand back a reference to it (syntactic escape analysis)."""
+    binds, bad = {}, set()
+    parents = {}
+    for node in ast.walk(fdef):
+        for ch in ast.iter_child_nodes(node):
+            parents[id(ch)] = node
+    for node in ast.walk(fdef):
+        if isinstance(node, ast.Name):
+            par = parents.get(id(node))
+            if isinstance(node.ctx, ast.Store):
+                stmt = par
+                ok = isinstance(stmt, (ast.Assign, ast.AnnAssign)) and isinstance(stmt.value, ast.List) and \
+                    (stmt.targets == [node] if isinstance(stmt, ast.Assign) else stmt.target is node)
+                if ok and node.id not in binds:
+                    binds[node.id] = stmt
+                else:
+                    bad.add(node.id)
+                continue
+            fine = False
+            if isinstance(par, ast.Attribute) and par.value is node and isinstance(parents.get(id(par)), ast.Call) \
+                    and parents[id(par)].func is par and par.attr in ("append", "extend", "insert", "pop", "sort", "copy", "index", "count", "reverse", "clear"):
+                fine = True
+            elif isinstance(par, ast.Call) and isinstance(par.func, ast.Name) and par.func.id == "len" and par.args == [node]:
+                fine = True
+            elif isinstance(par, ast.Subscript) and par.value is node and isinstance(par.ctx, ast.Load):
+                fine = True
+            else:
+                p_ = par
+                while p_ is not None and not isinstance(p_, ast.stmt):
+                    p_ = parents.get(id(p_))
+                fine = isinstance(p_, ast.Return)
+            if not fine:
+                bad.add(node.id)
+    return {n for n in binds if n not in bad}
+
+
 class Engine(ExprMixin, BuiltinMixin):
     MAX_PATHS = 400
 
@@ -75,7 +114,7 @@ class Engine(ExprMixin, BuiltinMixin):
 
     # ---- obligations -------------------------------------------------------------------------------------
     # sequence functionals: value determined by the first n elements of their array arguments
-    FUNCTIONALS = {"mean": ([0], 1), "Fobj": ([1], 2), "FobjArr": ([1], 2), "dot": ([0, 1], 2),
+    FUNCTIONALS = {"mean": ([0], 1), "Fobj": ([1], 2), "FobjArr": ([1], 2), "dot": ([0, 1], 2), "fsum": ([0], 1), "segf": ([0], 1),
                    "stop_at": ([6], 7)}
 
     def congruence_instances(self, formulas):
@@ -281,11 +320,15 @@ class Engine(ExprMixin, BuiltinMixin):
             st.env[name] = self.eval_spec(st, expr, None)
         for lab, r in c.labelled("requires"):
             st.assume(self.truth(st, self.eval_spec(st, r, None)))
+        for r in c.entry_invariants:        # object invariants (established by constructors, no writer in the package)
+            st.assume(self.truth(st, self.eval_spec(st, r, None)))
+            self.ctx.tags.add("A_object_invariant:" + r[:60])
         if not self.feasible(st, z3.BoolVal(True)):
             self.oblige(st, z3.BoolVal(False), "vacuity", "requires-unsat", clause="requires are contradictory")
             return
         old = st.clone()
         self.fn_entry = old
+        self.unaliased = unaliased_locals(fdef)
         loc = f"{mi.file}:{fdef.lineno}"
         self.loop_counter = 0
         try:
